@@ -329,6 +329,17 @@ static void mem_ops(World &w, const Op &o, int ri) {
       std::vector<hwloc_obj_t> objs(nr + 2); std::vector<hwloc_uint64_t> vals(nr + 2); unsigned cap = nr ? 1 + (unsigned)(o.u("cap") % (nr + 1)) : 1, nr2 = cap; rc = hwloc_memattr_get_targets(t, id, nullptr, 0, &nr2, objs.data(), vals.data());
       if (rc || nr2 != ntg) viol0(w, own, "memattr.get_targets", "get_targets('%s', array of %u) returned %d *nr=%u, %zu targets stored", A.name.c_str(), cap, rc, nr2, ntg);
       std::set<uint64_t> seen; for (unsigned i = 0; i < cap && i < nr2; i++) { if (!objs[i] || !(need ? A.tg.count(objs[i]->gp_index) : A.noinit.count(objs[i]->gp_index)) || !seen.insert(objs[i]->gp_index).second || objs[i] != by_gp(R, objs[i]->gp_index)) viol0(w, own, "memattr.get_targets", "get_targets('%s') returned an object that is not a stored target of this topology (or twice)", A.name.c_str()); if (!need && vals[i] != A.noinit[objs[i]->gp_index]) viol0(w, own, "memattr.get_targets", "get_targets('%s') returned another value than stored", A.name.c_str()); } }
+    // get_targets filtered by an initiator: exactly the targets holding a value for an initiator that includes it, each with that value, slot by slot
+    if (need) { hwloc_obj_t pu = sel_type(R, o.u("pu") + 7, HWLOC_OBJ_PU); if (pu) { struct hwloc_location loc; loc.type = HWLOC_LOCATION_TYPE_CPUSET; loc.location.cpuset = pu->cpuset;
+        std::map<uint64_t, uint64_t> exp; for (auto &tv : A.tg) for (auto &iv : tv.second) if (!iv.is_obj && iv.cs.has(pu->os_index)) exp[tv.first] = iv.value;
+        unsigned nr = 0; int rc = hwloc_memattr_get_targets(t, id, &loc, 0, &nr, nullptr, nullptr);
+        if (rc || nr != exp.size()) viol0(w, own, "memattr.get_targets", "get_targets('%s', initiator PU %u, nr=0) returned %d *nr=%u, %zu targets hold a value for it", A.name.c_str(), pu->os_index, rc, nr, exp.size());
+        const hwloc_uint64_t SENT = 0xfeedfacecafebeefULL; std::vector<hwloc_obj_t> objs(nr + 3, nullptr); std::vector<hwloc_uint64_t> vals(nr + 3, SENT); unsigned nr2 = nr + 2;
+        rc = hwloc_memattr_get_targets(t, id, &loc, 0, &nr2, objs.data(), vals.data());
+        if (rc || nr2 != exp.size()) viol0(w, own, "memattr.get_targets", "get_targets('%s', initiator PU %u, large array) returned %d *nr=%u, expected %zu", A.name.c_str(), pu->os_index, rc, nr2, exp.size());
+        for (unsigned i = 0; i < nr2; i++) { auto e = objs[i] ? exp.find(objs[i]->gp_index) : exp.end(); if (e == exp.end() || vals[i] != e->second) viol0(w, own, "memattr.get_targets", "get_targets('%s', initiator PU %u): slot %u holds target gp=%llu value %llu, stored value for that target is %llu", A.name.c_str(), pu->os_index, i, objs[i] ? (unsigned long long)objs[i]->gp_index : 0ULL, (unsigned long long)vals[i], e == exp.end() ? 0ULL : (unsigned long long)e->second); }
+        for (unsigned i = nr2; i < nr + 3; i++) if (vals[i] != SENT || objs[i]) viol0(w, own, "memattr.get_targets", "get_targets('%s', initiator PU %u) wrote slot %u beyond the %u entries it reports", A.name.c_str(), pu->os_index, i, nr2);
+        r.count("probe.memattr_get_targets_by_initiator"); } }
     // best target
     if (need) { hwloc_obj_t pu = sel_type(R, o.u("pu"), HWLOC_OBJ_PU); if (pu) { struct hwloc_location loc; loc.type = HWLOC_LOCATION_TYPE_CPUSET; loc.location.cpuset = pu->cpuset;
         bool any = false; uint64_t best = 0; for (auto &tv : A.tg) for (auto &iv : tv.second) if (!iv.is_obj && iv.cs.has(pu->os_index)) { if (!any || (higher ? iv.value > best : iv.value < best)) best = iv.value; any = true; }
